@@ -114,6 +114,28 @@ check('C18', level='model_checking', steps=[dict(builder=build_hist, name='hist-
       deadline=dict(quick=240, thorough=2400),
       mc_keys=dict(states='states', transitions='transitions'), traces_key='histories_replayed')
 
+WRAPPED = ['memcpy', 'memchr', 'strchr', 'strrchr', 'strspn', 'strlen', 'strncasecmp', 'malloc', 'free', 'strndup']
+def build_esched(bdir, step):
+    objs = BL.build_objects(bdir, 'cov')
+    so = os.path.join(bdir, 'libeav_cov.so')
+    rc, out = BL.sh(['clang', '-O1', '-fPIC', '-shared', '-Wl,-Bsymbolic', '-Wl,-z,now', '-Wl,' + ','.join('--wrap=' + w for w in WRAPPED), '-o', so,
+                     os.path.join(V, 'sched', 'wraps.c')] + objs + ['-lidn2'])
+    if rc: raise RuntimeError('libeav_cov link failed: ' + out)
+    exe = os.path.join(bdir, step['name'])
+    R = BL.repo()
+    cmd = ['clang', '-O1', '-g', '-std=gnu99', '-Wall', '-Wno-unused-function', '-I' + os.path.join(R, 'include'), '-I' + R, '-DHAVE_LIBIDN2'] + BL.BASE_DEFS + \
+          ['-o', exe, os.path.join(V, 'sched', 'esched.c'), so, '-Wl,-rpath,' + bdir, '-Wl,--export-dynamic', '-lidn2', '-lpthread', '-ldl']
+    rc, out = BL.sh(cmd)
+    if rc: raise RuntimeError('esched build failed: %s\n%s' % (' '.join(cmd), out))
+    return exe
+
+import c14tsan
+check('C14', level='model_checking', steps=[dict(builder=build_esched, name='esched'), dict(kind='py', name='tsan', fn=c14tsan.run)],
+      rule=("a state is (scheduling points passed by each thread, digest of all memory the threads share); states are distinct by construction of the visited set; "
+            "every execution is a complete run of real pthreads under the controlled scheduler; distinct_nontrivial = distinct states reached over all harnesses"),
+      deadline=dict(quick=240, thorough=3000),
+      mc_keys=dict(states='states', transitions='transitions'), traces_key='schedules_executed')
+
 # ---------------------------------------------------------------------------
 def load_findings():
     p = os.path.join(V, 'known_findings.json')
